@@ -1,3 +1,4 @@
+\* thorough: three threads, one call each, all concurrent
 CONSTANT Threads = {"t1", "t2", "t3"}
 CONSTANT Keys = {"k1", "k2"}
 CONSTANT CvKeys = {"k1"}
